@@ -15,7 +15,13 @@ Oracle S (real code only): lookup precedence, a raised exception leaves the
 held maps untouched, frame condition of a successful step, ADD/REM set
 semantics, JSON round trip, ``Duration(to_iso8601(d)) == d``,
 ``ConfigMemory(str(m)) == m``, and: a state the operations accepted can be
-serialised (to_json / from_json / to_edgeql do not raise).  ANY exception from
+serialised (to_json / from_json / to_edgeql do not raise); purity: an Operation's
+value is not changed by being coerced / applied, the same Operation applied twice
+to the same storage gives the same result, and the call sequence dbview uses for
+each scope (coerce_value -> apply -> persistence) gives the same storage as a
+plain apply; exclusivity across the declared type hierarchy.  A separate stream
+drives NESTED object fields (not in the Lean model) through the real code with
+all of these oracles.  ANY exception from
 ``Operation.apply`` counts as a rejection (the property does not prescribe the
 class); classes are recorded in the evidence and compared with the model's.
 
@@ -34,7 +40,8 @@ from lib import core
 PROPS = 'EdbVerif/Props/C19.lean'
 REQUIRED = [
     'EdbVerif.C19.C19_lookup', 'EdbVerif.C19.C19_lookup_first', 'EdbVerif.C19.C19_lookup_default',
-    'EdbVerif.C19.C19_seq_fold', 'EdbVerif.C19.C19_seq_set', 'EdbVerif.C19.C19_seq_reset',
+    'EdbVerif.C19.C19_seq_fold', 'EdbVerif.C19.C19_seq_set', 'EdbVerif.C19.C19_seq_set_repeat',
+    'EdbVerif.C19.C19_seq_reset',
     'EdbVerif.C19.C19_seq_add', 'EdbVerif.C19.C19_seq_set_objs', 'EdbVerif.C19.C19_seq_unique',
     'EdbVerif.C19.C19_unique_site', 'EdbVerif.C19.C19_seq_rem', 'EdbVerif.C19.C19_seq_frame',
     'EdbVerif.C19.C19_reject', 'EdbVerif.C19.C19_json', 'EdbVerif.C19.C19_json_invariant',
@@ -94,7 +101,27 @@ class Env:
         self.Smtp = sub('Smtp', self.Prov, F('host', str, default=None), F('token', str, unique=True, default=None))
         self.Web = sub('Web', self.Prov, F('url', str, default=None))
         self.Smtps = sub('Smtps', self.Smtp, F('port', int, default=None))
+        # nested object fields (NOT in the Lean model: driven through the real code only):
+        # NAuth.method : Method with subtypes Trust (no own field), Scram (optional own field),
+        # Jwt (required own field + a nested Signer with subtypes Hs / Rs(required own field))
+        self.Signer = types.ConfigTypeSpec(name='Signer', fields=mk(F('alg', str, default='x')))
+        self.Hs = sub('Hs', self.Signer)
+        self.Rs = sub('Rs', self.Signer, F('bits', int))
+        self.Method = types.ConfigTypeSpec(name='Method', fields=mk(F('label', str, default=None)))
+        self.Trust = sub('Trust', self.Method)
+        self.Scram = sub('Scram', self.Method, F('iters', int, default=None))
+        self.Jwt = sub('Jwt', self.Method, F('key', str), F('aud', frozenset[str], default=frozenset()),
+                       F('signer', self.Signer, default=None))
+        self.NAuth = types.ConfigTypeSpec(name='NAuth', fields=mk(
+            F('priority', int, unique=True),
+            F('user', str, default=None),
+            F('method', self.Method, default=None),
+        ))
         S = spec.Setting
+        self.nspec = spec.FlatSpec(
+            S('nauths', type=self.NAuth, set_of=True, default=frozenset()),
+            S('nflag', type=bool, default=False),
+        )
         self.spec = spec.FlatSpec(
             S('b', type=bool, default=True),
             S('i', type=int, default=0),
@@ -111,6 +138,14 @@ class Env:
             S('provs', type=self.Prov, set_of=True, default=frozenset()),
         )
         self.names = list(self.spec)
+
+    def view(self, spec):
+        """the same environment over another spec (used for the nested-object stream)"""
+        import copy
+        v = copy.copy(self)
+        v.spec = spec
+        v.names = list(spec)
+        return v
 
     # ---- encodings shared with Driver/C19.lean
     def sty(self, t):
@@ -149,6 +184,8 @@ class Env:
         raise ValueError(f'cannot encode {v!r}')
 
     def enc_fval(self, v):
+        if isinstance(v, self.types.CompositeConfigType):      # nested object (real-only stream)
+            return self.enc_obj(v)
         if isinstance(v, frozenset):
             return {'set': [self.enc_scalar(x) for x in v]}
         return self.enc_scalar(v)
@@ -424,6 +461,77 @@ def gen_prov(rng, full=True):
     return d
 
 
+def gen_method(rng):
+    r = rng.random()
+    if r < 0.1:
+        return None
+    tn = rng.choice(['Trust', 'Scram', 'Jwt', 'Jwt', None])
+    d = {} if tn is None else {'_tname': tn}
+    if rng.random() < 0.2:
+        d['label'] = rng.choice(['l1', None])
+    if tn == 'Scram' and rng.random() < 0.6:
+        d['iters'] = rng.choice([4096, 1, '4096'])
+    if tn == 'Jwt':
+        if rng.random() < 0.9:
+            d['key'] = rng.choice(['k1', 'k2'])
+        if rng.random() < 0.3:
+            d['aud'] = rng.choice([['a'], ['a', 'b'], 'c', []])
+        r2 = rng.random()
+        if r2 < 0.6:
+            sg = rng.choice([{'_tname': 'Hs'}, {'_tname': 'Rs', 'bits': 2048}, {'_tname': 'Rs', 'bits': 4096},
+                             {}, {'_tname': 'Rs'}, {'alg': 'y'}, {'_tname': 'Hs', 'bits': 1}, None,
+                             {'_tname': 'Nope'}, {'_tname': 'Trust'}, 5])
+            d['signer'] = json.loads(json.dumps(sg))
+    r = rng.random()
+    if r < 0.04:
+        d['iters'] = 5          # unknown unless Scram
+    elif r < 0.06:
+        d['_tname'] = rng.choice(['Nope', 'Port', 'Rs'])
+    return d
+
+
+def gen_nauth(rng, full=True):
+    d = {'priority': rng.choice([1, 2, 3])} if (full or rng.random() < 0.8) else {}
+    if rng.random() < 0.3:
+        d['user'] = rng.choice(['u', 'v', None])
+    if full or rng.random() < 0.5:
+        d['method'] = gen_method(rng)
+    if rng.random() < 0.03:
+        d['method'] = rng.choice([5, 'Trust', []])
+    return d
+
+
+def gen_nested_sequence(rng, maxlen=12):
+    ops = []
+    for _ in range(rng.randint(1, maxlen)):
+        scope = rng.choice(SCOPES)
+        r = rng.random()
+        if r < 0.55:
+            ops.append(['ADD', scope, 'nauths', gen_nauth(rng)])
+        elif r < 0.7:
+            ops.append(['SET', scope, 'nauths', [gen_nauth(rng) for _ in range(rng.randint(0, 3))]])
+        elif r < 0.85:
+            ops.append(['REM', scope, 'nauths', gen_nauth(rng, full=False)])
+        elif r < 0.93:
+            ops.append(['RESET', scope, 'nauths', None])
+        else:
+            ops.append(['SET', scope, 'nflag', rng.choice([True, False, 1])])
+    return ops
+
+
+NESTED_CORPUS = [
+    # the nested object is given as a SUBTYPE of the declared field type, with and without own fields
+    [['ADD', 'INSTANCE', 'nauths', {'priority': 1, 'method': {'_tname': 'Trust'}}],
+     ['ADD', 'INSTANCE', 'nauths', {'priority': 2, 'method': {'_tname': 'Scram', 'iters': 4096}}],
+     ['ADD', 'INSTANCE', 'nauths', {'priority': 3, 'method': {'_tname': 'Jwt', 'key': 'k1',
+                                                            'signer': {'_tname': 'Rs', 'bits': 2048}}}],
+     ['REM', 'INSTANCE', 'nauths', {'priority': 2}]],
+    [['SET', 'SESSION', 'nauths', [{'priority': 1, 'method': {'_tname': 'Jwt', 'key': 'k', 'signer': {'_tname': 'Hs'}}},
+                                   {'priority': 2, 'method': {}}]],
+     ['ADD', 'DATABASE', 'nauths', {'priority': 1, 'method': {'_tname': 'Jwt', 'key': 'k', 'signer': {}}}]],
+]
+
+
 def gen_value(rng, env, name, code):
     """a value for an op on setting `name`: valid / boundary / invalid mix"""
     inval = rng.random() < 0.15
@@ -552,16 +660,34 @@ def rejection_kind(op, e, env):
     cause = ''
     if isinstance(e, KeyError):
         vals = op[3] if isinstance(op[3], list) else [op[3]]
-        known = {'Port', 'Auth', 'Prov', 'Smtp', 'Web', 'Smtps'}
+        known = set(env.spec._types_by_name)
         if any(isinstance(v, dict) and isinstance(v.get('_tname'), str) and v['_tname'] not in known
                for v in vals):
             cause = ':unknown-_tname'
     return f'{op[0]}:{_kind(name)}:{exc_name(e)}{cause}'
 
 
+class _NestedCtx:
+    """ctx proxy of the nested-object stream: marks failure details so that --replay
+    re-runs them in that stream (the Lean model has no nested objects)"""
+
+    def __init__(self, ctx):
+        self._ctx = ctx
+
+    def fail(self, key, what, detail, **kw):
+        if isinstance(detail, dict):
+            detail = {**detail, 'nested': True}
+        self._ctx.fail(key, what, detail, **kw)
+
+    def __getattr__(self, n):
+        return getattr(self._ctx, n)
+
+
 def run_sequence(env, real, ops, ctx, stats, tag):
     """run one op sequence through the real code; evaluate oracle S; return the
     observations to compare with the model."""
+    if tag == 'nested':
+        ctx = _NestedCtx(ctx)
     E = env.errors.EdgeDBError
     maps = {s: env.immutables.Map() for s in SCOPES}
     steps = []
@@ -572,8 +698,9 @@ def run_sequence(env, real, ops, ctx, stats, tag):
         before_dump = dumps[scope]
         all_before = dict(dumps)
         value_in = json.loads(json.dumps(value))        # private copy: apply may mutate nested dicts
+        op_obj = env.ops.Operation(env.ops.OpCode(code), env.qltypes.ConfigScope(scope), name, value_in)
         try:
-            after = real.apply([code, scope, name, value_in], before)
+            after = op_obj.apply(env.spec, before)
             res = 'ok'
         except Exception as e:     # noqa: BLE001
             res = exc_name(e)
@@ -584,7 +711,8 @@ def run_sequence(env, real, ops, ctx, stats, tag):
                 k = rejection_kind(op, e, env)
                 stats['non_edgedb'][k] = stats['non_edgedb'].get(k, 0) + 1
             # S: REM of a value the coercion accepts never fails (absence is not an error)
-            if code == 'REM' and name in ('objs', 'auths', 'provs'):
+            if code == 'REM' and name in env.spec and env.spec[name].set_of and \
+                    isinstance(env.spec[name].type, env.types.ConfigTypeSpec):
                 try:
                     o = env.ops.Operation(env.ops.OpCode(code), env.qltypes.ConfigScope(scope), name,
                                           json.loads(json.dumps(value)))
@@ -635,6 +763,11 @@ def run_sequence(env, real, ops, ctx, stats, tag):
                              f'two stored objects ({ta}, {tb_}) agree on the exclusive field {fname!r} = {v!r}',
                              {'ops': ops[:idx + 1]})
             maps[scope] = after
+        # S: purity – the Operation is not changed by being applied, applying it again to the same
+        # storage gives the same result, and the call sequence dbview uses for this scope
+        # (coerce_value, then apply, then persistence) gives the same storage as a plain apply
+        purity_oracles(env, ctx, op_obj, value, before, res, after if res == 'ok' else None,
+                       ops[:idx + 1], stats)
         # S: independent validity of SET values for the plain kinds
         if code == 'SET' and name in PLAIN:
             valid = plain_valid(name, value)
@@ -696,6 +829,123 @@ def run_sequence(env, real, ops, ctx, stats, tag):
     return {'steps': steps, 'look': look, 'final': final}
 
 
+def only_gained_tname(orig, now):
+    """is `now` = `orig` except for `_tname` keys added to nested dicts?"""
+    if isinstance(orig, dict) and isinstance(now, dict):
+        extra = set(now) - set(orig)
+        if extra - {'_tname'} or set(orig) - set(now):
+            return False
+        return all(only_gained_tname(orig[k], now[k]) for k in orig)
+    if isinstance(orig, list) and isinstance(now, list):
+        return len(orig) == len(now) and all(only_gained_tname(a, b) for a, b in zip(orig, now))
+    return type(orig) is type(now) and orig == now
+
+
+def _outcome(env, fn):
+    """('ok', canonical dump) | (exception class, None)"""
+    try:
+        m = fn()
+        return 'ok', canon_map(env.enc_map(m)), m
+    except Exception as e:     # noqa: BLE001
+        return exc_name(e), None, None
+
+
+def dbview_style(env, op, storage):
+    """the call sequence of edb/server/dbview/dbview.pyx for one operation (transcribed):
+    INSTANCE  apply_system_config_op: get_setting, coerce_value (value for the callbacks),
+              apply, _save_system_overrides = to_json(filter source == 'system override',
+              include_source=False) + json.loads;
+    DATABASE  apply_config_ops: apply;
+    SESSION   apply_config_ops: apply, later serialize_state = value_to_json_value of every
+              session value + json.dumps.
+    Returns (new storage, callback value or None, persisted JSON or None)."""
+    cfg, ops_ = env.config, env.ops
+    scope = str(op.scope)
+    if scope == 'INSTANCE':
+        spec = env.spec
+        op_value = op.get_setting(spec)
+        allow_missing = op.opcode is cfg.OpCode.CONFIG_REM or op.opcode is cfg.OpCode.CONFIG_RESET
+        op_value = op.coerce_value(spec, op_value, allow_missing=allow_missing)
+        new = op.apply(spec, storage)
+        data = cfg.to_json(spec, new, setting_filter=lambda v: v.source == 'system override',
+                           include_source=False)
+        return new, op_value, json.loads(data)
+    new = op.apply(env.spec, storage)
+    if scope == 'SESSION':
+        state = []
+        for sval in new.values():
+            setting = env.spec[sval.name]
+            state.append({'name': sval.name, 'value': cfg.value_to_json_value(setting, sval.value),
+                          'type': 'C'})
+        return new, None, json.loads(json.dumps(state))
+    return new, None, None
+
+
+def purity_oracles(env, ctx, op_obj, value, before, res, after, prefix, stats):
+    code, scope, name = str(op_obj.opcode), str(op_obj.scope), op_obj.setting_name
+    pristine = json.loads(json.dumps(value))
+    kind = _kind(name)
+
+    def mutated(v, where):
+        if v == pristine:
+            return
+        if only_gained_tname(pristine, v):
+            stats['op_value_gained_tname'] = stats.get('op_value_gained_tname', 0) + 1
+            return
+        ctx.fail(f'oracle:op-mutated:{where}:{kind}',
+                 f'{where} changed the Operation\'s value: {pristine!r} -> {v!r}',
+                 {'ops': prefix, 'nested': kind.startswith('nested')})
+    mutated(op_obj.value, 'apply')
+    # the same Operation object again, on the same storage
+    res2, dump2, _ = _outcome(env, lambda: op_obj.apply(env.spec, before))
+    dump1 = canon_map(env.enc_map(after)) if res == 'ok' else None
+    if (res2, dump2) != (res, dump1):
+        ctx.fail(f'oracle:apply-not-repeatable:{code}:{kind}',
+                 f'applying the same Operation twice to the same storage: first {res}, then {res2}'
+                 + ('' if dump1 == dump2 else ' with a different storage'),
+                 {'ops': prefix, 'first': dump1, 'second': dump2, 'nested': kind.startswith('nested')})
+    # a fresh Operation driven the way dbview drives it
+    o3 = env.ops.Operation(op_obj.opcode, op_obj.scope, name, json.loads(json.dumps(value)))
+    cb = {}
+
+    def drive():
+        new, cbv, persisted = dbview_style(env, o3, before)
+        cb['v'], cb['p'] = cbv, persisted
+        return new
+    res3, dump3, new3 = _outcome(env, drive)
+    mutated(o3.value, 'dbview-sequence')
+    stats['dbview'][scope] = stats['dbview'].get(scope, 0) + 1
+    if res == 'ok' and res3 != 'ok':
+        # apply accepted; the surrounding sequence (coerce twice / persistence) failed
+        if not (res3 in ('AttributeError', 'TypeError') and _tojson_fails_map(env, after)):
+            ctx.fail(f'oracle:dbview-differs:{scope}:{code}:{kind}',
+                     f'plain apply accepted, the dbview call sequence raised {res3}',
+                     {'ops': prefix, 'nested': kind.startswith('nested')})
+    elif (res3 == 'ok') != (res == 'ok') or (res == 'ok' and dump3 != dump1):
+        ctx.fail(f'oracle:dbview-differs:{scope}:{code}:{kind}',
+                 f'the dbview call sequence gives a different result ({res3}) than a plain apply ({res})',
+                 {'ops': prefix, 'plain': dump1, 'dbview': dump3, 'nested': kind.startswith('nested')})
+    elif res == 'ok' and scope == 'INSTANCE' and code in ('SET', 'ADD') and name in new3:
+        # the value handed to the server callbacks is the value that was stored
+        stored = new3[name].value
+        cbv = cb.get('v')
+        enc = lambda x: canon_val(env.enc_val_for(name, x))      # noqa: E731
+        ok = (enc(stored) == enc(cbv)) if code == 'SET' else (
+            isinstance(stored, frozenset) and any(enc(x) == enc(cbv) for x in stored))
+        if not ok:
+            ctx.fail(f'oracle:dbview-callback-value:{code}:{kind}',
+                     'the value coerced for the callbacks is not the value apply stored',
+                     {'ops': prefix, 'callback': repr(cbv), 'stored': repr(stored)})
+
+
+def _tojson_fails_map(env, m):
+    try:
+        env.ops.to_json(env.spec, m)
+        return False
+    except Exception:     # noqa: BLE001
+        return True
+
+
 def unique_sites(tspec, fname):
     """names of the types of the declared chain self, parent, … on which `fname` is exclusive"""
     out = set()
@@ -742,7 +992,8 @@ def plain_valid(name, value):
 
 
 def _kind(name):
-    return {'obj': 'single-object', 'objs': 'object-set', 'auths': 'object-set', 'provs': 'object-set', 'mem': 'memory',
+    return {'obj': 'single-object', 'objs': 'object-set', 'auths': 'object-set', 'provs': 'object-set',
+            'nauths': 'nested-object-set', 'mem': 'memory',
             'i': 'int', 'ints': 'int-set', 'd': 'duration', 'dn': 'duration'}.get(name, name)
 
 
@@ -793,7 +1044,7 @@ def run(ctx: core.Ctx):
         rp = json.load(open(ctx.replay))
         for f in rp['failures']:
             d = f.get('detail')
-            if isinstance(d, dict) and 'ops' in d:
+            if isinstance(d, dict) and 'ops' in d and not d.get('nested'):
                 seqs.append((d['ops'], 'replay'))
     else:
         for ops in CORPUS:
@@ -804,7 +1055,7 @@ def run(ctx: core.Ctx):
         for i, ops in enumerate(gen_exhaustive(env, depth)):
             seqs.append((ops, f'exh{depth}'))
 
-    stats = {'err': {}, 'ok': {}, 'non_edgedb': {}}
+    stats = {'err': {}, 'ok': {}, 'non_edgedb': {}, 'dbview': {}}
     obs, lines = [], []
     for ops, tag in seqs:
         obs.append(run_sequence(env, real, ops, ctx, stats, tag))
@@ -812,6 +1063,21 @@ def run(ctx: core.Ctx):
                                           'look': env.names + ['nope']}))
     ctx.log(f'{len(seqs)} sequences ({sum(len(s[0]) for s in seqs)} ops) through the real code; '
             f'ok {stats["ok"]} err {stats["err"]}')
+
+    # ------------------------- stream 1b: nested object fields (real code only, all oracles)
+    envn = env.view(env.nspec)
+    realn = Real(envn)
+    nstats = {'err': {}, 'ok': {}, 'non_edgedb': {}, 'dbview': {}}
+    if ctx.replay:
+        nseqs = [f['detail']['ops'] for f in rp['failures']
+                 if isinstance(f.get('detail'), dict) and f['detail'].get('nested') and 'ops' in f['detail']]
+    else:
+        nseqs = [json.loads(json.dumps(o)) for o in NESTED_CORPUS] + \
+            [gen_nested_sequence(rng) for _ in range(ctx.budget(600, 12000))]
+    for ops in nseqs:
+        run_sequence(envn, realn, ops, ctx, nstats, 'nested')
+    ctx.log(f'{len(nseqs)} nested-object sequences ({sum(len(o) for o in nseqs)} ops, real code only): '
+            f'ok {nstats["ok"]} err {nstats["err"]}')
 
     # EdgeQL text: the model prints the REAL storage (real iteration order of maps and sets)
     eq_lines, eq_ref = [], []
@@ -1051,6 +1317,12 @@ def run(ctx: core.Ctx):
         'duration_memory_cases': len(dm_lines), 'duration_memory_outcomes': dm_hist,
         'disagreements_model_vs_impl': n_dis,
         'edgeql_replay_level2': l2,
+        'nested_object_stream (real code only)': {
+            'sequences': len(nseqs), 'ops': sum(len(o) for o in nseqs), 'ok_by_opcode': nstats['ok'],
+            'rejections_by_exception_class': nstats['err'],
+            'op_value_gained__tname (benign mutation of the caller\'s dict by from_pyvalue)': nstats.get('op_value_gained_tname', 0),
+            'dbview_style_runs_by_scope': nstats['dbview']},
+        'dbview_style_runs_by_scope': stats['dbview'],
         'exhaustive': False,
         'correspondence': 'real Operation.apply / config.lookup / to_json / from_json / to_edgeql / '
                           'statypes.Duration / ConfigMemory vs Lean EdbVerif.Config / Duration / Memory; '
@@ -1187,6 +1459,24 @@ TRICKY = ['a', 'b c', "it's", 'say "hi"', 'back\\slash', '$x$', '$$', 'nl\nnl', 
           "'", '"', '\\', '\\n', '{}', ';', 'x;y', '#c', '`bq`', ' lead', 'trail ', '\x7f', '‮', "a''b"]
 
 
+L2_METHODS = ['cfg::Trust', 'cfg::SCRAM', 'cfg::JWT', 'cfg::Password']
+
+
+class _L2Ctx:
+    """ctx proxy of the level-2 leg: failure details carry `l2ops` so that --replay re-runs them there"""
+
+    def __init__(self, ctx):
+        self._ctx = ctx
+
+    def fail(self, key, what, detail, **kw):
+        if isinstance(detail, dict) and 'ops' in detail:
+            detail = {k: v for k, v in detail.items() if k != 'ops'} | {'l2ops': detail['ops']}
+        self._ctx.fail(key.replace('oracle:', 'oracle:l2:', 1), what, detail, **kw)
+
+    def __getattr__(self, n):
+        return getattr(self._ctx, n)
+
+
 class Level2:
     """the REAL spec of the std schema + the front-end bridge: statements printed
     by `to_edgeql` are parsed (real grammar), compiled (real edgeql compiler),
@@ -1208,6 +1498,8 @@ class Level2:
         self.qlparser, self.qlcompiler = qlparser, qlcompiler
         self.spec = config.load_spec_from_schema(self.std)
         self.rejected = {}
+        self.envv = Env().view(self.spec)
+        self.pstats = {'dbview': {}}
 
     def kind(self, name):
         s = self.spec[name]
@@ -1247,8 +1539,14 @@ class Level2:
         if k == 'object:cfg::TestInstanceConfig':
             # parent and subtype share the inherited exclusive `name`: draw it from a small pool
             nm = rng.choice(['n1', 'n2', 'n3']) if rng.random() < 0.7 else rng.choice(TRICKY)
-            if rng.random() < 0.5:
+            r = rng.random()
+            if r < 0.3:
                 return {'name': nm}
+            if r < 0.6:
+                # nested object given as a SUBTYPE (with a required own field) of the declared cfg::Base
+                sub_ = rng.choice(['1', '2'])
+                return {'name': nm, 'obj': {'_tname': 'cfg::Subclass' + sub_, 'name': rng.choice(['o1', 'o2']),
+                                            'sub' + sub_: rng.choice(['s', 't'])}}
             return {'_tname': 'cfg::TestInstanceConfigStatTypes', 'name': nm,
                     'durprop': rng.choice([None, 'PT5S', 'PT-0.5S', 'PT1H2M3.000004S'])}
         if k == 'object:cfg::Auth':
@@ -1257,6 +1555,8 @@ class Level2:
                 d['user'] = rng.choice([['u'], ['u', 'v'], 'w', [], ["o'q"]])
             if rng.random() < 0.5:
                 d['comment'] = rng.choice(TRICKY)
+            if rng.random() < 0.7:
+                d['method'] = {'_tname': rng.choice(L2_METHODS)}
             return d
         if k == 'object:cfg::EmailProviderConfig':
             d = {'_tname': 'cfg::SMTPProviderConfig', 'name': rng.choice(TRICKY)}
@@ -1306,12 +1606,20 @@ class Level2:
     def build(self, ops, ctx=None):
         m = self.im.Map()
         for i, (code, scope, name, value) in enumerate(ops):
+            op_obj = self.ops.Operation(self.ops.OpCode(code), self.qltypes.ConfigScope(scope), name,
+                                        json.loads(json.dumps(value)))
+            before = m
             try:
-                m = self.ops.Operation(self.ops.OpCode(code), self.qltypes.ConfigScope(scope), name,
-                                       json.loads(json.dumps(value))).apply(self.spec, m)
+                m = op_obj.apply(self.spec, m)
+                res = 'ok'
             except Exception:     # noqa: BLE001 – a rejected op: the storage stays as it is
-                self.rejected[type(sys.exc_info()[1]).__name__] = \
-                    self.rejected.get(type(sys.exc_info()[1]).__name__, 0) + 1
+                res = type(sys.exc_info()[1]).__name__
+                self.rejected[res] = self.rejected.get(res, 0) + 1
+            if ctx is not None:
+                # S: purity / repeatability / the dbview call sequence, on the real spec
+                purity_oracles(self.envv, _L2Ctx(ctx), op_obj, value, before, res,
+                               m if res == 'ok' else None, ops[:i + 1], self.pstats)
+            if res != 'ok':
                 continue
             # S: exclusivity across the declared hierarchy (cfg::TestInstanceConfig and its subtype, …)
             if ctx is not None and code in ('ADD', 'SET') and name in m and isinstance(m[name].value, frozenset):
@@ -1343,6 +1651,19 @@ class Level2:
             return None, (stage, e)
 
 
+def strip_empty_sets(ops):
+    """the same operations with every `field: []` of an object value removed"""
+    def st(v):
+        if isinstance(v, dict):
+            return {k: st(x) for k, x in v.items() if x != []}
+        if isinstance(v, list):
+            return [st(x) for x in v]
+        return v
+    return [[c, sc, n, (st(v) if isinstance(v, (dict, list)) and n not in ('multiprop', 'cors_allow_origins',
+                                                                          'listen_addresses') else v)]
+            for c, sc, n, v in ops]
+
+
 def edgeql_replay_leg(ctx, replay_cases=None):
     t0 = ctx.t0
     import time as _t
@@ -1351,6 +1672,7 @@ def edgeql_replay_leg(ctx, replay_cases=None):
     setup_s = round(_t.time() - t_start, 1)
     rng = ctx.rng
     cases = replay_cases if replay_cases is not None else \
+        [[['ADD', 'INSTANCE', 'auth', {'priority': 1, 'user': []}]]] + \
         [l2.gen_ops(rng) for _ in range(ctx.budget(250, 8000))]
     n_stmt, n_ok, n_empty, kinds, samples = 0, 0, 0, {}, []
     for ops in cases:
@@ -1376,10 +1698,18 @@ def edgeql_replay_leg(ctx, replay_cases=None):
             continue
         # oracle: the same EFFECTIVE configuration (an entry holding an empty set prints no statement)
         def eff(mm, k):
-            return l2.config.lookup(k, mm, spec=l2.spec)
+            # deep dump: `==` on config objects only looks at their unique fields
+            return canon_val(l2.envv.enc_val_for(k, l2.config.lookup(k, mm, spec=l2.spec)))
         diff = sorted(k for k in l2.spec if eff(m, k) != eff(back, k))
         diff += sorted(k for k in set(m) & set(back) if (m[k].scope, m[k].source) != (back[k].scope, back[k].source))
-        if diff:
+        if diff and all(eff(l2.build(strip_empty_sets(ops)), k) == eff(back, k) for k in l2.spec):
+            # the only loss: an explicitly EMPTY set-valued object field prints as `f := {}`, which
+            # reads back as "not given", i.e. as the field's (non-empty) default
+            ctx.fail('edgeql-replay:empty-set-field-reverts-to-default',
+                     'an object whose set-valued field is explicitly empty does not survive to_edgeql + replay: '
+                     'the field comes back as its non-empty default',
+                     {'l2ops': ops, 'text': text, 'settings': diff})
+        elif diff:
             for k in diff:
                 ctx.fail(f'edgeql-replay:differs:{l2.kind(k) if k in l2.spec else k}',
                          'applying the statements printed by to_edgeql to an empty storage gives a different storage',
@@ -1412,7 +1742,9 @@ def edgeql_replay_leg(ctx, replay_cases=None):
         probes.append(o)
     return {'storages': len(cases) - n_empty, 'statements': n_stmt, 'round_trips_equal': n_ok,
             'finding_reachability_probes': probes if replay_cases is None else [],
-            'settings_by_kind': kinds, 'rejections_by_exception_class': l2.rejected, 'bridge_setup_s': setup_s, 'std_schema': l2.std_info,
+            'settings_by_kind': kinds, 'rejections_by_exception_class': l2.rejected,
+            'dbview_style_runs_by_scope': l2.pstats['dbview'],
+            'op_value_gained__tname': l2.pstats.get('op_value_gained_tname', 0), 'bridge_setup_s': setup_s, 'std_schema': l2.std_info,
             'samples': samples}
 
 
